@@ -31,3 +31,19 @@ Proof.
            rm hd sg sgl data yf Hram Hh Hl Hwf Hsz Hlt Hfs).
 Qed.
 Print Assumptions C16_source_batch_alone.
+
+(* ---- the rule installation run alone.  Sched.v's coroutine for add_webentity_creation_rule_iter reads the trie LAZILY while its
+   own re-insertions create webentities (and nodes) under the anchor; the sequential model Traph.add_rule (the one the refinement
+   proof and C06_rule_install speak about) computes the pages beneath the anchor BEFOREHAND.  For EVERY history and every anchor
+   and rule kind, advancing the coroutine alone until it is done reaches exactly the state and the report of the sequential
+   request: the nodes a re-insertion creates are never pages and hang on former leaves, so the page-filtered depth-first list of
+   every pending stack entry never changes (RuleRunFacts.v). *)
+From Traph Require Sched RuleRun RuleRunFacts.
+Import Sched RuleRun.
+Theorem C16_rule_alone : forall d rs h, wf_rules rs -> Forall wf_op h ->
+  let s := run d rs h in
+  forall p k, wf_lru p ->
+  exists fuel, let '(r', s') := rule_run fuel (rule_start p k) s in
+    r_done r' = true /\ s' = fst (add_rule p k true s) /\ Report (r_n r') (r_c r') = snd (add_rule p k true s).
+Proof. exact RuleRunFacts.rule_run_alone. Qed.
+Print Assumptions C16_rule_alone.
